@@ -662,6 +662,16 @@ func (ev *evaluator) call(x ECall) *Val {
 				return a
 			}
 		}
+		if sl, ok := x.Args[0].(ESel); ok {
+			// addr(p.f): address of a struct-valued field of the object p points to (the sub-object go/ssa reaches by FieldAddr)
+			base := ev.eval(sl.X)
+			if base != nil && base.T != nil {
+				if key, ft, ref, ok2 := ev.fieldLoc(base, sl.Name); ok2 && structFields(ft) != nil {
+					return &Val{T: types.NewPointer(ft), S: SInt, Tm: st.subObj(ref, key)}
+				}
+			}
+			return ev.fail("addr(p.f): f is not a struct-valued field")
+		}
 		return ev.fail("addr(x): x is not an address-taken local on this path")
 	case "isnew": // isnew(x): x refers to an object allocated by this function activation (or is nil)
 		a := ev.eval(x.Args[0])
